@@ -5,6 +5,7 @@ import evlm
 import ewho
 import ereduce
 import ecanon
+import estep
 import eunits
 import eraw
 import esort
@@ -35,6 +36,12 @@ def run(ctx):
     ctx.explain("E-CANON (key, funnel, sites): node equality and hash read the children only (level numbers are rewritten in "
                 "place during reordering), nodes are created through get_or_insert under the looked-up hash.")
     ecanon.run(ctx, F)
+    ctx.explain("E-TABLE.step (ZBDD restrict): the one reviewed site that creates nodes without going through reduce (restrict_base's "
+                "don't-care loop) is interpreted with its own get_or_insert: every node it files has a non-empty hi edge (decided "
+                "semantically for the results of the recursive calls), sits in the view of its own level, and the result denotes the "
+                "restricted family.")
+    nzr = estep.run(ctx, F, kinds=("zbdd",), parts=("restrict",))
+    ctx.floor("E-TABLE.step", "ZBDD restrict / restrict_base situations", nzr, 100)
     ctx.explain("E-WHO: the operations that temporarily break the level invariants (swap, take, insert_unchecked, "
                 "get_or_insert_unchecked, set_child, set_level) are called only from oxidd-reorder; node-removal "
                 "primitives only from gc / try_remove_node / level views, gated by reorder_gc_prepared / "
